@@ -85,6 +85,18 @@ func (e *Engine) verifyFunction(fc *FuncContract, mode *Mode) (vc *VC) {
 		fr.lets["result"] = Binding{term: vals[0], typ: res.At(0).Type()}
 	}
 	fr.atExit = true
+	// ghost definitions: the ghost variables named in "defines[...]" are updated at return
+	for _, c := range fc.Defines_ {
+		for _, g := range c.Props {
+			if gv, ok := e.db.ghosts[g]; ok {
+				vc.havocKey(out, "G:"+g, vc.ghostSort(gv.Type))
+			} else {
+				vc.unsupportedf("defines: unknown ghost %s", g)
+			}
+		}
+		vc.assume(out.guard, fr.evalClause(c, out, nil))
+		vc.assumptions["ghost definition (not a proof obligation): "+shortType(fc.Key)+": "+c.Src] = true
+	}
 	for _, c := range fc.Ensures {
 		if !fr.wantClause(c) {
 			continue
